@@ -123,6 +123,11 @@ pub fn check_program(case: &Case, shape: &str, rng: &mut Rng8, rep: &mut Report)
             }
         }
     }
+    // every-limit sweep: for short programs every m in 64..=c+1 is tried through a Process whose
+    // clock can be read after the stop (the sampled limits above only probe the last cycles)
+    if (c <= 640 && rng.gen_bool(0.15)) || rng.gen_bool(0.01) {
+        sweep_all_limits(case, &prog, c, &full_events, shape, rep);
+    }
     // the limit must also be honoured through prove()
     if c > 70 && rng.gen_bool(0.05) {
         let m = c - 1;
@@ -139,6 +144,68 @@ pub fn check_program(case: &Case, shape: &str, rng: &mut Rng8, rep: &mut Report)
     if rep.samples.len() < 3 {
         rep.sample(json!({"shape": shape, "natural_cycles": c, "src": crate::report::truncate(&case.src, 200)}));
     }
+}
+
+/// Runs the program under EVERY limit m in 64..=c+1 (strided above 4096 cycles) with
+/// `Process::execute`, so that the clock at which execution stopped is observable: a stop must
+/// leave the clock at exactly m+1 (the advance that tripped the limit), must have executed no host
+/// callback beyond clock m, must have executed every callback of the unlimited run up to clock m
+/// (the step at clock m is the last one executed), and a sufficient limit must reproduce the
+/// unlimited run.
+fn sweep_all_limits(case: &Case, prog: &Program, c: u32, full_events: &[HostEvent], shape: &str, rep: &mut Report) {
+    let stride = if c > 4096 { (c / 2048).max(1) } else { 1 };
+    let mut m = 64u32;
+    let mut stops = 0u64;
+    while m <= c + 1 {
+        let opts = ExecutionOptions::new(Some(m), 64, true).expect("valid options");
+        let mut host = case.host();
+        let r = catch(|| {
+            let mut process = processor::Process::new(prog.kernel().clone(), case.stack_inputs(), &mut host, opts);
+            let r = process.execute(prog);
+            (r.map(|_| ()), process.system.clk())
+        });
+        let wit = || json!({"kind": "limit", "case": case.to_json(), "limit": m, "natural_cycles": c, "shape": shape});
+        let events = &host.events;
+        match r {
+            Err(p) => rep.violation(format!("sweep/panic/{}", p.site()), format!("limit {m}: {}", p.message), wit()),
+            Ok((Ok(()), clk)) => {
+                if m < c {
+                    rep.violation("sweep/limit-not-enforced", format!("needs {c} cycles, succeeded with max_cycles={m} (clock {clk})"), wit());
+                } else if clk != c || events[..] != full_events[..] {
+                    rep.violation("sweep/sufficient-limit-changes-run", format!("limit {m} >= c={c}: final clock {clk}, {} callbacks vs {}", events.len(), full_events.len()), wit());
+                }
+            }
+            Ok((Err(ExecutionError::CycleLimitExceeded(x)), clk)) => {
+                stops += 1;
+                if m >= c {
+                    rep.violation("sweep/spurious-limit-error", format!("needs {c} <= limit {m} but stopped"), wit());
+                }
+                if x != m {
+                    rep.violation("sweep/wrong-limit-in-error", format!("CycleLimitExceeded({x}) for limit {m}"), wit());
+                }
+                if clk != m + 1 {
+                    rep.violation("sweep/clock-at-stop", format!("limit {m}: clock is {clk} after the stop, expected {}", m + 1), wit());
+                }
+                let expect: Vec<&HostEvent> = full_events.iter().filter(|e| e.clk <= m).collect();
+                if let Some(e) = events.iter().find(|e| e.clk > m) {
+                    rep.violation("sweep/callback-after-limit", format!("host callback {:?} at clk {} > limit {m}", e.kind, e.clk), wit());
+                } else if events.len() > expect.len() || events.iter().zip(expect.iter()).any(|(a, b)| a != *b) {
+                    rep.violation("sweep/events-not-a-prefix", format!("callbacks under limit {m} are not a prefix of the unlimited run"), wit());
+                } else if events.len() < expect.len() {
+                    // stopped early: a step at a clock <= m was not executed although the limit allows it
+                    rep.violation("sweep/stopped-before-limit", format!("limit {m}: {} of the {} callbacks at clk <= {m} were executed", events.len(), expect.len()), wit());
+                }
+            }
+            Ok((Err(e), _)) => {
+                rep.violation(format!("sweep/wrong-error/{}", crate::case::err_kind(&e)), format!("limit {m} (c={c}): {e:?}"), wit());
+            }
+        }
+        m += stride;
+    }
+    rep.count("sweep", "programs");
+    rep.count_n("sweep", "limits-tried", (((c + 1).saturating_sub(64)) / stride + 1) as u64);
+    rep.count_n("sweep", "stops-observed", stops);
+    rep.eval(&format!("sweep|{shape}|{}", 32 - c.leading_zeros()));
 }
 
 fn nonterminating(rep: &mut Report, rng: &mut Rng8) {
@@ -265,6 +332,7 @@ pub fn run(cfg: &Cfg) -> Report {
         rep.floor(rep.get_count("relation", r) >= 20, &format!("relation-{r}-20x"));
     }
     rep.floor(rep.get_count("nonterminating", "loop-push") >= 1, "nonterminating-programs-run");
+    rep.floor(rep.get_count("sweep", "stops-observed") >= 10_000, "every-limit-sweep-10000-stops");
     rep
 }
 
